@@ -3,6 +3,8 @@
 # seeded/MATRIX.json (seed, property, exit code of the check, number of VIOLATION lines). Takes about an hour.
 # Nothing else may use /repo or run a check in /verif meanwhile.
 cd "$(dirname "$0")/.."
+VERIF_DIR=$(pwd)
+REPO=${VERIF_REPO:-/repo}        # a snapshot run (vp run --with-repo) passes its own copy of the repository
 out=seeded/MATRIX.json
 echo "[" > $out.tmp
 first=1
@@ -11,11 +13,11 @@ for d in seeded/*/; do
   [ -f $d/meta.json ] || continue
   prop=$(python3 -c "import json;print(json.load(open('$d/meta.json'))['property'])")
   neutral=$(python3 -c "import json;print('neutralised' in json.load(open('$d/meta.json')))")
-  git -C /repo apply /verif/$d/patch.diff 2>/dev/null || { echo "$id: patch does not apply" >&2; continue; }
-  ( cd /repo && go build ./... >/dev/null 2>&1 ) || { echo "$id: does not build" >&2; git -C /repo checkout -q -- .; continue; }
+  git -C $REPO apply $VERIF_DIR/$d/patch.diff 2>/dev/null || { echo "$id: patch does not apply" >&2; continue; }
+  ( cd $REPO && go build ./... >/dev/null 2>&1 ) || { echo "$id: does not build" >&2; git -C $REPO checkout -q -- .; continue; }
   log=$(VERIF_SEED=1 bin/check $prop --tier quick 2>&1); rc=$?
-  git -C /repo checkout -q -- .
-  git -C /verif checkout -q -- evidence/$prop.json 2>/dev/null
+  git -C $REPO checkout -q -- .
+  git -C $VERIF_DIR checkout -q -- evidence/$prop.json 2>/dev/null
   nv=$(echo "$log" | grep -c '^VIOLATION')
   cl=$(echo "$log" | grep -o '"clause": "[A-Za-z0-9_]*"' | sort | uniq -c | sort -rn | head -3 | awk '{print $3}' | tr -d '"' | paste -sd, -)
   [ $first = 1 ] || echo "," >> $out.tmp
